@@ -153,6 +153,29 @@ CLAIMED["C15"] = dict(
          "stated lattices ({0..2}^2, {0..1}^3 / {0..2}^3)",
     design="§3 C15")
 
+CLAIMED["C07"] = dict(
+    level="model_checking", engine="envsum",
+    text="(a) symbolic execution of the real read_logs against a file whose visible length is a non-decreasing z3 int at stat() and before every "
+         "line read, from an arbitrary earlier offset cache: exactly records k..j, never a partial record, cached offsets == true offsets. (b) bounded "
+         "model checking of the lock protocol: the call-site automaton of the real append_logs (both lock classes) is re-extracted from the source on every "
+         "run, K=2-3 copies composed in z3 with a file-system/clock model (bit-vector BMC over macro steps, symbolic schedule): for all schedules up to the "
+         "depth never two lock holders, release() never raises, unwinding check unsat, reachability witness sat; sat schedules replayed on the real code.",
+    note="operating assumption of the lease lock (hold < 10 s, no suspension > 5-10 s between shared calls, grace 30 s); POSIX atomicity of "
+         "symlink/O_EXCL/rename; threads sharing one backend object are C03",
+    technique="symbolic execution (reader) + automaton extraction from the real code and z3 bit-vector bounded model checking (lock), replayed",
+    design="§3 C07")
+CLAIMED["C05"] = dict(
+    level="fault_enumeration", engine="envsum",
+    text="Journal-file part: the crash point of a writer running the real append_logs is a symbolic index into its system-call trace and the number of "
+         "bytes of the interrupted write delivered is symbolic; survivors and a fresh opener continue through the real append_logs/read_logs (stale lock "
+         "overcome through the real grace-period path): acknowledged appends visible in order, interrupted one all-or-nothing, no survivor call raises, "
+         "cached offsets agree with a fresh reader. Takeover of a dead holder's lock by two survivors is decided by the C07 model checker under arbitrary "
+         "timing and replayed. Two genuine defects are re-derived on every run and listed as known findings (torn record; double takeover).",
+    note="POSIX model of append-mode writes; SQLite/RDB crash atomicity is outside (C library); signal handlers that run (KeyboardInterrupt while "
+         "waiting for the lock) are outside the kill model",
+    technique="symbolic fault points over the real code (executor) + z3 bounded model checking of the lock takeover, replayed on the real code",
+    design="§3 C05")
+
 NOT_APPLICABLE = {
     "C03": "thread/process pre-emption at source-line granularity inside the storage layer cannot be made a symbolic variable over the "
            "real Python code by a solver-based executor; its atomic-step obligations are discharged under C01/C04/C06/C07",
